@@ -67,6 +67,8 @@ def plan(S, prop, mode, tier, avoid):
                                       (r.randrange(1000001, 2600000), 0.004)]),      # rarely more than a million points
                        "ra": ra, "dec": dec, "rad": _draw_radius(r, avoid_small),
                        "get_radius": chance(r, 0.5), "dorot": chance(r, 0.3)})
+            if chance(r, 0.06):
+                op["nty"] = pick(r, ["i8", "i4"])
             if chance(r, 0.12):
                 op["cty"] = pick(r, ["f4", "f4", "f8"])
                 op["rty"] = chance(r, 0.5)
@@ -225,6 +227,10 @@ def do_cap(run, op):
     judge = run.prop == "C19"
     n, ra, dec, rad = op["n"], op["ra"], op["dec"], op["rad"]
     kw = {"get_radius": op["get_radius"], "dorot": op["dorot"]}
+    n_arg = n
+    if op.get("nty"):
+        n_arg = np.int64(n) if op["nty"] == "i8" else np.int32(n)     # the count as a numpy integer
+        run.fault("count_given_as_a_numpy_integer")
     ra_arg, dec_arg, rad_arg = ra, dec, rad
     cty = op.get("cty", "py")
     if cty != "py":
@@ -247,7 +253,7 @@ def do_cap(run, op):
     if rot:
         run.fault("forced_rotation_path")
     try:
-        out = coords.randcap(n, ra_arg, dec_arg, rad_arg, rng=rng, **kw)
+        out = coords.randcap(n_arg, ra_arg, dec_arg, rad_arg, rng=rng, **kw)
     except Exception as e:
         run.event(0, "cap", sdigest(op), "error(%s)" % type(e).__name__)
         if judge:
